@@ -33,6 +33,18 @@ CLAIMS = {
                   'solver decides exactly-one-response, no response to notifications, no panic. Replayed through the real LSP binary.',
              tech='SMT-guided bounded symbolic execution of rustc MIR (z3); inductive one-step kernels', sect='§4 C12',
              note='Kernels K1, K2, K2b, K4. Outside: liveness of I/O threads, process exit status after exit (lsp-server), frame syntax.'),
+ 'C13': dict(text='Symbolic execution of cli::check, cli::tokenize and cli::create_project with the file system, the project and the output streams as nondeterministic stubs/events: every combination of enumeration, read, lexical and semantic outcomes; '
+                  'solver-enumerated paths decide OK-line <=> Ok <=> no diagnostics and that any failing path or file fails the command. Replayed through the ironplcc binary.',
+             tech='SMT-guided bounded symbolic execution of rustc MIR (z3) with nondeterministic environment stubs', sect='§4 C13',
+             note='Kernels K1-K3. Outside: clap argument parsing, process exit status mapping (Rust Termination), stream contents, echo.'),
+ 'C14': dict(text='Symbolic execution of source::path_to_source with std::fs::read and encoding_rs::Encoding::decode* modelled by their documented contract over abstract files (stored encoding x text); '
+                  'symbolic execution of the real lexer over every valid UTF-8 text up to N bytes (totality, tiling, character boundaries). Replayed through `ironplcc check` on files stored in each encoding.',
+             tech='SMT-guided bounded symbolic execution of rustc MIR (z3); lexer DFA lifted to an ite-DAG', sect='§4 C14',
+             note='Kernels K1, K2. Outside: encoding_rs internals, UTF-16 without BOM, positions after multi-byte text (C05).'),
+ 'C15': dict(text='Symbolic execution of LspProject::tokenize and From<LspTokenType> for Option<SemanticToken>: tokens with symbolic, ordered (line, col) are decoded under the LSP relative encoding by the solver; legend table over a symbolic TokenType; error result on lexical errors; '
+                  'lexer line/column accounting over all UTF-8 texts up to N bytes. Replayed through the LSP binary.',
+             tech='SMT-guided bounded symbolic execution of rustc MIR (z3)', sect='§4 C15',
+             note='Kernels K1, K2, K4, K5. Outside: token length in UTF-16 units, multi-line tokens (K3), edit histories (C11).'),
  'C04': dict(text='Kani/CBMC proof harnesses over the compiled ironplc-dsl numeric constructors (all FixedPoint values, real time crate) decide panic freedom; '
                   'failing checks come with concrete playback values that are replayed through the public API and through `check` of a program containing the literal.',
              tech='bounded model checking with Kani/CBMC (bit-precise, compiled code)', sect='§4 C04', kani=True,
